@@ -187,6 +187,14 @@ func (x *runner) nodeID(host, inst string) int {
 }
 
 func hostOf(addr string) string {
+	// an IPv6 server is written in brackets; the node universe (and carbon) name it without them
+	if len(addr) > 0 && addr[0] == '[' {
+		for i := 1; i < len(addr); i++ {
+			if addr[i] == ']' {
+				return addr[1:i]
+			}
+		}
+	}
 	for i := 0; i < len(addr); i++ {
 		if addr[i] == ':' {
 			return addr[:i]
